@@ -405,7 +405,21 @@ pub fn random_session(r: &mut StdRng, th: usize, steps: usize) -> Vec<Value> {
             }
             9 => {
                 let j = s.ctx_json(&mut events);
-                s.ctx_from_json(&j, &mut events);
+                if r.random_range(0..2) == 0 {
+                    s.ctx_from_json(&j, &mut events);
+                } else {
+                    // a document that names only some of the fields merges into the existing state
+                    let part = match serde_json::from_str::<serde_json::Value>(&j) {
+                        Ok(serde_json::Value::Object(m)) => {
+                            let keep: serde_json::Map<String, serde_json::Value> =
+                                m.into_iter().filter(|(k, _)| k != "$lists").enumerate().filter(|(i, _)| i % 2 == 0).map(|(_, kv)| kv).collect();
+                            serde_json::Value::Object(keep).to_string()
+                        }
+                        _ => "{}".to_string(),
+                    };
+                    s.ctx_from_json(&part, &mut events);
+                }
+                let _ = s.ctx_json(&mut events);
             }
             10 => {
                 let bad = ["{\"i\": \"x\"}", "{\"nosuch\": 1}", "[1,2", "{\"ai\": [1, \"a\"]}"];
